@@ -8,7 +8,9 @@ def run(prog, rep, tier):
                   "FORMAT, BLOCK) either build.cc builds the child with a fresh bindings scope or every construction site in the generated parser/"
                   "lexer wraps the child in SCOPE; S2: op_read/op_upread/op_const push clones of stored values; S3: bindings::bind throws before "
                   "inserting a duplicate and the READ case of build_exec cannot complete without a lookup hit or a throw; Q1(iii): no function-local "
-                  "static initialised from a parameter (same text compiled twice).")
+                  "static initialised from a parameter (same text compiled twice); S4: bindings::find consults the enclosing scope only when the "
+                  "own scope misses, and a block's up-reference table enters the names of the enclosing scope before inherited up-references "
+                  "under keep-first insertion (inner binders shadow outer/builtin names for nested blocks).")
     rep.not_decided = ("agreement between up-value id allocation order and the pop order in op_lex_closure for all nesting shapes; that each read "
                        "yields the value bound for the very input (run-time relation).")
     r = r_scope.s1(prog)
@@ -19,6 +21,7 @@ def run(prog, rep, tier):
         raise Broken("S1 saw %d construction sites, below the floor 25" % r[2])
     apply(rep, "S2", "readers clone bound values", r_scope.s2(prog), 3)
     apply(rep, "S3", "rebind / unbound name are compile-time throws", r_scope.s3(prog), 2)
+    apply(rep, "S4", "inner binders shadow outer ones (lookup and up-reference table order)", r_scope.s4(prog), 2)
     q = r_pure.q1(prog)
     apply(rep, "Q1", "no parameter-dependent function-local static", ([i for i in q[0] if i[0].startswith("Q1iii")],
                                                                     [f for f in q[1] if f["key"].startswith("Q1iii")]), 1)
